@@ -5,7 +5,7 @@ BIN=$(cd /verif && ./check build 2>/tmp/devbuild.err | tail -1); if [ ! -x "$BIN
 rm -f /tmp/devrun.*.jsonl
 per=$(( (n+15)/16 ))
 for w in $(seq 0 15); do
-  ( for i in $(seq 0 $((per-1))); do s=$((from + w*per + i)); GOMAXPROCS=2 $BIN -test.run TestSim -sim.engine $eng -sim.profile $prof -sim.seed $s -sim.out /tmp/devrun.$w.jsonl "$@" >/dev/null 2>/tmp/devrun.$w.err || echo "seed $s exit $?" >> /tmp/devrun.$w.jsonl; done ) &
+  ( for i in $(seq 0 $((per-1))); do s=$((from + w*per + i)); GOMAXPROCS=2 $BIN -test.run TestSim -sim.engine $eng -sim.profile $prof -sim.seed $s -sim.out /tmp/devrun.$w.jsonl -sim.tier ${TIER:-quick} "$@" >/dev/null 2>/tmp/devrun.$w.err || echo "seed $s exit $?" >> /tmp/devrun.$w.jsonl; done ) &
 done
 wait
 cat /tmp/devrun.*.jsonl | python3 -c "
